@@ -2,6 +2,7 @@ import Driver.Proto
 import Driver.Algo
 import Fzf.Model.Rank
 import Fzf.Model.ChunkList
+import Fzf.Model.ChunkHeap
 import Fzf.Base.Utf8
 import Fzf.Generated.Consts
 namespace Driver.Rank
@@ -90,6 +91,27 @@ def run (ctx : Algo.Ctx) (op : String) (args impl : List String) : Outcome :=
     { model := s!"{snapStr} {showNatList counts} {showIntList got}", spec,
       tags := ["pass"] ++ (if tl > 0 then ["tail"] else []) ++ (if last.length ≥ 2 then ["multichunk", "nt"] else []) ++
         (if (last.headD []).length < cz ∧ last.length ≥ 2 then ["partialfirst"] else []) }
+  | "frozen", [pushes, snapAt, tail] =>
+    let n := pushes.toNat!
+    let cz := Generated.chunkSize
+    let snaps := parseNatList snapAt
+    let tl := tail.toNat!
+    -- heap model: the list and the snapshots share cells; snapshots are re-read in the final heap
+    let step (st : ChunkHeap.CL × List (ChunkHeap.CL × List Nat)) (k : Nat) :=
+      let (cl, out) := st
+      let (cl, out) := (snaps.filter (· == k)).foldl (fun (acc : ChunkHeap.CL × List (ChunkHeap.CL × List Nat)) _ =>
+        let r := ChunkHeap.snapshot tl acc.1; (r.1, acc.2 ++ [(r.1, r.2)])) (cl, out)
+      (if k < n then ChunkHeap.push cz cl k else cl, out)
+    let (final, taken) := (List.range (n + 1)).foldl step (⟨[], []⟩, [])
+    let showSnaps (l : List (List (List Int))) := if l.isEmpty then "_" else ";".intercalate (l.map showChunks)
+    let atTime := taken.map fun (cl, ids) => ids.map cl.cell
+    let atEnd := taken.map fun (_, ids) => ids.map final.cell
+    let spec := match impl with
+      | [a, b] => if a != b then specFail "[C13] a snapshot changed after it was taken" else specOk
+      | _ => specFail "[C13] unparsable answer"
+    { model := s!"{showSnaps atTime} {showSnaps atEnd}", spec,
+      tags := ["frozen"] ++ (if tl > 0 then ["tail"] else []) ++
+        (if taken.any (fun (cl, ids) => (ids.map cl.cell).flatten.length < n) then ["nt", "grown-after"] else []) }
   | "slice", [parts, nchunks] =>
     let sl := sliceChunks parts.toNat! (List.range nchunks.toNat!)
     let model := if sl.isEmpty then "_" else ";".intercalate (sl.map showNatList)
